@@ -41,7 +41,9 @@ static void *trk_alloc(void *ctx, size_t len)
 static void trk_free(void *ctx, void *ptr)
 {
 	struct TrkHdr *h;
-	if (!ptr) return;
+	/* CxOps contract (usual/cxalloc.h): c_free is never handed NULL - cx_free() filters it.
+	 * A parent allocator that tolerated NULL would hide a regression in that filter. */
+	if (!ptr) { fprintf(stderr, "trk_free: c_free called with NULL (cx_free must filter it)\n"); abort(); }
 	h = (struct TrkHdr *)ptr - 1;
 	if (h->magic != TRK_MAGIC) { fprintf(stderr, "trk_free: bad magic\n"); abort(); }
 	h->magic = 0;
@@ -145,7 +147,7 @@ static long trkm_find(const void *p, size_t n)
 static void trkm_free(void *ctx, void *ptr)
 {
 	long i;
-	if (!ptr) return;
+	if (!ptr) { fprintf(stderr, "trkm_free: c_free called with NULL (cx_free must filter it)\n"); abort(); }
 	for (i = trkm_n - 1; i >= 0; i--)
 		if (trkm_regs[i].live && trkm_regs[i].user == (unsigned char *)ptr) break;
 	if (i < 0) { fprintf(stderr, "trkm_free: region not live (double free or foreign pointer)\n"); fflush(stdout); abort(); }
